@@ -5,3 +5,5 @@ pub mod timer;
 pub mod joypad;
 pub mod lcd;
 pub mod bus;
+pub mod intc;
+pub mod ime;
